@@ -4,6 +4,8 @@ package certgen
 
 import (
 	"crypto/rsa"
+	"crypto/x509"
+	"crypto/x509/pkix"
 	"math/big"
 	"encoding/asn1"
 	"encoding/json"
@@ -125,6 +127,48 @@ func TestVerifReplayKeyStrengthRSA(t *testing.T) {
 	t.Logf("RSA modulus of %d bits, e=%d -> accepted=%v err=%v", n.BitLen(), e, ok, err)
 	if ok && (n.BitLen() < 2048 || e < 65537) {
 		t.Logf("REPLAY-CONFIRMED: a key weaker than RSA-2048/e>=65537 is accepted")
+	} else {
+		t.Logf("REPLAY-NOT-REPRODUCED")
+	}
+}
+
+// C10 / C11: the two readers of the RFC 3779 extension on certificates whose extension is well-formed ASN.1 but
+// malformed as an address block (the shapes of a no-panic model: a family identifier of 0..3 octets, blocks whose
+// bit length disagrees with their octets). A panic in either reader confirms.
+func TestVerifReplayAddressExtensionNoPanic(t *testing.T) {
+	confirmed := false
+	for famLen := 0; famLen <= 3; famLen++ {
+		for _, blk := range []asn1.BitString{
+			{Bytes: []byte{10}, BitLength: 8},
+			{Bytes: []byte{}, BitLength: 0},
+			{Bytes: []byte{10, 0, 0, 0, 1}, BitLength: 40},
+		} {
+			fam := []byte{0, 1, 1}[:famLen]
+			list := []IpAdressFamily{{AddressFamily: fam, Addresses: []asn1.BitString{blk}}}
+			der, err := asn1.Marshal(list)
+			if err != nil {
+				t.Logf("family of %d octets: cannot be marshalled: %v", famLen, err)
+				continue
+			}
+			cert := &x509.Certificate{Extensions: []pkix.Extension{{Id: oidIPAddressDelegation, Value: der}}}
+			for name, call := range map[string]func(){
+				"VerifyIPRestrictedX509CertIP":      func() { VerifyIPRestrictedX509CertIP(cert, "10.0.0.1:1234") },
+				"ExtractIPNetsFromIPRestrictedX509": func() { ExtractIPNetsFromIPRestrictedX509(cert) },
+			} {
+				func() {
+					defer func() {
+						if r := recover(); r != nil {
+							t.Logf("%s: AddressFamily of %d octets, block of %d bits in %d octets -> panic: %v", name, famLen, blk.BitLength, len(blk.Bytes), r)
+							confirmed = true
+						}
+					}()
+					call()
+				}()
+			}
+		}
+	}
+	if confirmed {
+		t.Logf("REPLAY-CONFIRMED: a malformed address extension panics the reader")
 	} else {
 		t.Logf("REPLAY-NOT-REPRODUCED")
 	}
